@@ -71,10 +71,7 @@ class Sample:
         """indel equivalents (used for long reads because indelpost is too slow)"""
 
         self._multi_sites = {
-            m.pos: m.op
-            for _, a in gene.alleles.items()
-            for m in a.func_muts
-            if ">" in m.op and len(m.op) > 3
+            pos: op for pos, op in gene.mutations if ">" in op and len(op) > 3
         }
         """Multi-substitutions (e.g., `A.C>T.G`)."""
 
